@@ -132,6 +132,16 @@ def _migrate_csv_to_rules(csv_file: str, config_dir: str, backup: bool = True,
             print(f"      Rename or remove it, or set merchants_file in settings.yaml, then run again")
             return False
 
+        # A settings file that names its rules file itself (also when that is the CSV) keeps
+        # reading THAT file: moving the CSV away would leave the budget without rules
+        settings_path = os.path.join(config_dir, settings_file or 'settings.yaml')
+        if os.path.exists(settings_path):
+            with open(settings_path, 'r', encoding='utf-8') as f:
+                if re.search(r'''^merchants_file[ \t]*:[ \t]*(?!(~|null|Null|NULL|""|\'\')?[ \t]*(#.*)?\r?$)\S''',
+                             f.read(), re.MULTILINE):
+                    print(f"  {C.YELLOW}⚠{C.RESET} {settings_file or 'settings.yaml'} already sets merchants_file - not migrating the CSV")
+                    return False
+
         # Load and convert
         csv_rules = load_merchant_rules(csv_file)
         content = csv_to_merchants_content(csv_rules)
